@@ -322,6 +322,17 @@ def run_session(case, preempt=None):
                 if c.get('delay'):
                     dsched.v_sleep(c['delay'])
                 t0 = dsched.v_time()
+                if c.get('stall') == 'tx_done':
+                    # this caller is preempted between "the connection is there" and "the request is queued" until the
+                    # transmit thread of that connection has ended (a schedule fixed by a condition, not by step numbers)
+                    me, txt, orig_connect = s.cur, client._txthread, client.connect
+
+                    def connect_then_stall(*args, **kwds):
+                        result = orig_connect(*args, **kwds)
+                        if s.cur is me and txt is not None:
+                            s.stall(lambda: not txt.is_alive(), 30.0)
+                        return result
+                    client.connect = connect_then_stall
                 try:
                     action, ident = c['key']
                     if c.get('bad') == 'unhashable':
@@ -403,6 +414,22 @@ def check(ctx, case, preempt=None):
                 ctx.finding('request-queued-during-disconnect-left-to-its-time-out', sub,
                             f'caller {i_} {case["callers"][i_]["key"]}: queued while disconnect() was running, TimeoutError {v_[5] - lt:.1f} s after the shutdown began')
                 return
+    if world.dropped in ('close', 'reset') and getattr(world, 'drop_mark', None) is not None and lt is None and not out['error'] \
+            and not case.get('slow_reconnect') and not case.get('reconnect_ok'):
+        # the same for the teardown after a connection lost by the peer: it runs in the receive and transmit threads of that
+        # connection and is over when both have ended; a request queued in between is released by it
+        workers = [next((t for t in s.threads if w in t.name), None) for w in ('rxthread', 'txthread')]
+        ends = [next((n for n, (who, tag) in enumerate(s.trace) if who == t.ident and tag == 'exit'), None) for t in workers if t]
+        if len(ends) == 2 and None not in ends:
+            for i_, v_ in out['results'].items():
+                tid_ = next((t.ident for t in s.threads if t.name == f'T:caller{i_}'), None)
+                queued_ = next((n for n, (who, tag) in enumerate(s.trace) if who == tid_ and tag == 'q.put.done'), None)
+                if queued_ is not None and world.drop_mark < queued_ < max(ends) and v_[0] == 'exc' and v_[1] == 'TimeoutError' \
+                        and v_[5] - world.drop_time > 4.0 and not case['callers'][i_].get('bad'):
+                    ctx.finding('request-queued-during-teardown-left-to-its-time-out', sub,
+                                f'caller {i_} {case["callers"][i_]["key"]}: queued while the lost connection was torn down, '
+                                f'TimeoutError {v_[5] - world.drop_time:.1f} s after the drop')
+                    return
     if lt is not None and (len(out['results']) < len(case['callers']) or any(v[4] >= lt for v in out['results'].values())):
         # a request issued after the user's disconnect() re-opens the connection (documented: "make sure we are connected"):
         # this is a new session, not a caller waiting at shutdown - outside the statement
